@@ -168,13 +168,22 @@ class Tie:
         return [ln for o in outs for ln in o]
 
     def report(self, replay, what, no_input=False, key=None):
+        if key is None:
+            key = getattr(self, "_force_key", None)
+            if key == self.K_ENDFRAME:
+                what = ("ZSTD_seekable_endFrame called once with too little output room (returns > 0: the end of the frame is still inside the inner "
+                        "ZSTD_CStream), then ZSTD_seekable_compressStream with more input (ops %s, maxFrameSize %s, checksumFlag %s): no call reports an "
+                        "error, but ZSTD_compressStream finishes the pending frame and starts a new zstd frame while frameCSize/frameDSize/XXH64 keep "
+                        "accumulating - one seek-table entry covers two zstd frames and the seekable reader cannot read across the inner boundary. "
+                        % (replay.get("ops"), replay.get("mfs"), replay.get("cf"))) + what
         if key is not None:
             if key in self.keys_seen:      # one report per finding key
                 return
             self.keys_seen.add(key)
-        if self.nviol >= MAX_VIOL:
+        elif self.nviol >= MAX_VIOL:       # the cap bounds unkeyed reports only: a keyed finding is reported once whatever came before it
             return
-        self.nviol += 1
+        if key is None:
+            self.nviol += 1
         self.ctx.violation(replay, what=what, no_input=no_input, key=key)
 
     @staticmethod
@@ -358,9 +367,11 @@ class Tie:
             add(17000, "zero", 1, 0, level=1, tag="long-table-nocf")
         return specs
 
-    def phase_archives(self):
+    def phase_archives(self, specs=None, key_of=None):
+        """key_of: optional function spec -> finding key for reports about that spec (round-2 scenarios)"""
         ctx = self.ctx
-        specs = self.gen_archive_specs()
+        if specs is None:
+            specs = self.gen_archive_specs()
         # ---- stage 1: compress with the real code
         ctext = []
         for s in specs:
@@ -398,8 +409,12 @@ class Tie:
         ms = self.sections(mlines)
         good = []
         for s in specs:
-            if self.compare_compress(s, cs.get(s["id"], []), ms.get(s["id"], [])):
-                good.append(s)
+            self._force_key = key_of(s) if key_of else None
+            try:
+                if self.compare_compress(s, cs.get(s["id"], []), ms.get(s["id"], [])):
+                    good.append(s)
+            finally:
+                self._force_key = None
         # ---- stage 2: reads
         self.phase_reads(good)
         self.good_archives = good
@@ -1174,6 +1189,349 @@ class Tie:
             except (IndexError, KeyError, ValueError) as e:
                 self.report(replay, "re-initialisation: unparsable output (%r)" % (e,), no_input=True)
 
+    # ------------------------------------------------------------------ round 2: call histories / configurations round 1 never generated
+    K_ENDFRAME = "C20-endframe-pending-then-compress"
+    K_REINIT = "C20-reinit-stale-buffer-size"
+    K_CFLAG = "C20-checksumflag-not-boolean"
+    K_BEYOND = "C20-offset-beyond-end"
+    K_EXACT = "C20-exact-frame-read-unchecked"
+
+    @staticmethod
+    def _read_ok(d, want):
+        """does an 'r'/'rf' result line report exactly the bytes `want`?"""
+        if d.get("ret", "E") != str(len(want)):
+            return False
+        if "data" in d:
+            return d["data"] == (want.hex() or "-")
+        return d.get("crc") == "%08x" % (zlib.crc32(want) & 0xFFFFFFFF)
+
+    def phase_r2_endframe_pending(self):
+        """ZSTD_seekable_endFrame called ONCE with too little output room (it returns > 0, the frame epilogue is still inside the
+        inner ZSTD_CStream) and the caller goes on with ZSTD_seekable_compressStream - 'at any time, call ZSTD_seekable_endFrame()'.
+        Run through the whole archive pipeline (model lock-step, archive == frames of the log || table, frame walk, regular decoder,
+        then the read phase): one seek-table entry must describe one zstd frame."""
+        rng, ctx = self.rng, self.ctx
+        specs = []
+
+        def add(x, mfs, cf, ops, tag, ccap=4096, scap=4096, level=3):
+            specs.append(dict(id="p%d" % len(specs), x=x, kind="count", mfs=mfs, cf=cf, level=level, ops=ops, ccap=ccap, scap=scap, tag=tag))
+        x20 = bytes(range(0x30, 0x30 + 20))
+        for cf in (0, 1):
+            add(x20, 0, cf, ["c 10 4096", "e1 2", "c 10 4096"], "pending-then-compress")
+            add(x20, 7, cf, ["c 3 64", "e1 0", "c 100 64"], "pending-room0-then-compress")
+            add(x20, 0, cf, ["c 10 4096", "e1 2", "e 4096", "c 10 4096"], "pending-then-finished")        # the flush is completed first: always fine
+            add(x20, 0, cf, ["c 20 4096", "e1 1"], "pending-then-endStream")                               # endStream finishes the frame itself
+            add(x20, 5, cf, ["c 5 0", "c 0 1", "e1 3", "c 5 4096"], "auto-end-pending-then-explicit")      # automatic end at maxFrameSize still flushing
+        for cf in (0, 1):      # ZSTD_seekable_endStream called again and again after it returned 0: returns 0, writes nothing
+            add(x20, 7, cf, ["c 7 4096", "c 7 4096", "c 7 4096", "s 4096", "s 4096", "s 0", "s 3"], "endStream-after-completion")
+            add(x20, 7, cf, ["c 7 4096", "c 7 4096", "c 7 4096", "s 5", "s 0", "s 1", "s 0", "s 4096", "s 1"], "endStream-rooms-then-again")
+        for _ in range(4 if ctx.quick else 40):
+            n = rng.randint(2, 600)
+            x = gen_content(rng, n, rng.choice(["text", "count", "rand"]))
+            ops = []
+            for _ in range(rng.randint(1, 5)):
+                ops.append("c %d %d" % (rng.randint(1, max(1, n // 2)), rng.choice([0, 1, 5, 64, 4096])))
+                if rng.random() < 0.7:
+                    ops.append("e1 %d" % rng.choice([0, 1, 2, 3, 5, 8]))
+            add(x, rng.choice([0, 0, 7, 64, max(1, n // 3)]), rng.choice([0, 1]), ops, "pending-random", ccap=rng.choice([4096, 64, 9]), scap=rng.choice([4096, 7]))
+
+        def key_of(s):
+            ops = s["ops"]
+            return self.K_ENDFRAME if any(o.startswith("e1") for o in ops) else None
+        self.phase_archives(specs=specs, key_of=key_of)
+
+    def phase_r2_reinit_modes(self):
+        """one ZSTD_seekable object bound to a small archive, then initialised again on a larger one through another (or the same)
+        access mode: every read of the second archive must return its content slice; the independent ZSTD_seekTable must outlive
+        the object.  (The header: the source must stay alive 'until the ZSTD_seekable object is freed or reset'.)"""
+        ctx = self.ctx
+        x1 = b"012"
+        x2 = bytes((11 * i + 5) & 255 for i in range(80))
+        p1, p2 = self.blob(x1, "x"), self.blob(x2, "x")
+        fpath = self.path("r2reinit.f")
+        reads = [("r", 0, 80), ("r", 30, 20), ("r", 41, 3), ("rf", 1, 40), ("r", 39, 2), ("r", 0, 80)]
+        first = {"mem": "open mem", "file": "open file %s" % self.path("r2reinit0.f"), "cb": "open cb"}
+        second = {"mem": "reopen", "file": "reopenf %s" % fpath, "cb": "reopencb"}
+        leak_noted = False
+        for m1 in ("mem", "file", "cb"):
+            for m2 in ("mem", "file", "cb"):
+                for cf in ((0, 1) if m1 == "mem" else (ctx.seed & 1,)):
+                    text = ["content_file %s" % p1, "cinit 3 %d 0" % cf, "finish 1000 1000", first[m1], "r 0 3",
+                            "content_file %s" % p2, "cinit 3 %d 40" % cf, "finish 1000 1000", second[m2]]
+                    text += ["%s %d %d" % r for r in reads] + ["stfree"]
+                    rc, cl, cerr = self.run_c("\n".join(text) + "\n", timeout=30, linebuf=True)
+                    replay = dict(kind="r2", scenario="reinit-modes", first=m1, second=m2, cf=cf, commands=text, rc=rc, seed=ctx.seed)
+                    rl = [l for l in cl if l.split()[:1] and l.split()[0] in ("r", "rf")]
+                    try:
+                        if rc != 0 or len(rl) != len(reads) + 1 or not any(l.startswith("stfree n=") for l in cl):
+                            raise Fail("crash / abort (rc=%d): %s" % (rc, (cerr or "")[-300:]))
+                        ro = [l for l in cl if l.startswith("reopen")]
+                        if not ro or kv(ro[0])[2].get("ret", "E").startswith("E"):
+                            raise Fail("the second init (%s) refuses a valid archive: %s" % (second[m2].split()[0], ro[:1]))
+                        for rd, ln in zip(reads, rl[1:]):
+                            d = kv(ln)[2]
+                            want = x2[rd[1]:rd[1] + rd[2]] if rd[0] == "r" else x2[40 * rd[1]:40 * rd[1] + 40]
+                            if not self._read_ok(d, want):
+                                self.report(dict(replay, failing_call=list(rd), observed=ln[:300]),
+                                            "one ZSTD_seekable object initialised on a 37-byte archive (content '012', %s access) and then initialised again on a valid "
+                                            "148-byte archive (80 bytes, maxFrameSize 40, checksumFlag %d, %s access): %s(%d, %d) returns %s instead of the content "
+                                            "slice (same calls on a fresh object succeed)"
+                                            % (m1, cf, m2, "ZSTD_seekable_decompress" if rd[0] == "r" else "ZSTD_seekable_decompressFrame", rd[1], rd[2], d.get("ret")),
+                                            key=self.K_REINIT)
+                                break
+                        st = [l for l in cl if l.startswith("stfree n=")][0]
+                        if not st.startswith("stfree n=3 : 0:0:0:") or " 2:" not in st:
+                            raise Fail("the ZSTD_seekTable copied from the object does not describe the archive after the object is freed: %s" % st[:200])
+                        ctx.count(("r2-reinit", m1, m2, cf))
+                    except Fail as e:
+                        self.report(replay, "re-initialisation across access modes: " + str(e))
+                    except (IndexError, KeyError, ValueError) as e:
+                        self.report(replay, "re-initialisation across access modes: unparsable output (%r)" % (e,), no_input=True)
+                    if not leak_noted and m1 == "mem" and m2 == "file":
+                        # informational (a leak is not part of the property): does a second successful init release the first table?
+                        rc2, _cl2, cerr2 = self.run_c("\n".join(text) + "\nclose\n", exe=self.asan(), timeout=60, linebuf=True)
+                        ctx.notes["reinit_leaks_previous_table"] = bool("LeakSanitizer" in (cerr2 or "") and "ZSTD_seekable_loadSeekTable" in (cerr2 or ""))
+                        leak_noted = True
+
+    def phase_r2_checksum_flag(self):
+        """checksumFlag is documented as 'whether or not the seek table should include frame checksums': every non-zero value must
+        give an archive the seekable reader opens and reads back"""
+        ctx = self.ctx
+        x = bytes(range(0x30, 0x30 + 20))
+        xp = self.blob(x, "x")
+        for api in ("stream", "raw"):
+            for cf in (2, 3, 4, 256, 1):
+                build = ["cinit 3 %d 7" % cf, "finish 1000 1000"] if api == "stream" else ["rawarch %d 0 3 7" % cf]
+                text = ["content_file %s" % xp] + build + ["frames", "regular", "open mem", "r 0 20", "r 5 9", "rf 2 6", "close"]
+                rc, cl, cerr = self.run_c("\n".join(text) + "\n", timeout=30, linebuf=True)
+                replay = dict(kind="r2", scenario="checksum-flag", api=api, cf=cf, content_hex=x.hex(), commands=text, rc=rc, seed=ctx.seed)
+                try:
+                    if rc != 0:
+                        raise Fail("crash (rc=%d): %s" % (rc, (cerr or "")[-300:]))
+                    reg = kv([l for l in cl if l.startswith("regular")][0])[2]
+                    if reg["err"] != "0" or reg["same"] != "1":
+                        raise Fail("a regular decoder does not regenerate the content: %s" % reg)
+                    op = kv([l for l in cl if l.startswith("open")][0])[2]
+                    rl = [l for l in cl if l.split()[:1] and l.split()[0] in ("r", "rf")]
+                    bad = None
+                    if op.get("ret", "E").startswith("E"):
+                        bad = "ZSTD_seekable_initBuff returns %s" % op.get("ret")
+                    else:
+                        for (want, ln) in zip((x, x[5:14], x[14:20]), rl):
+                            if not self._read_ok(kv(ln)[2], want):
+                                bad = "read '%s' returns %s" % (" ".join(ln.split()[:3]), kv(ln)[2].get("ret"))
+                                break
+                    if bad:
+                        self.report(replay, "checksumFlag = %d (%s): the archive is written without any error (content 30..43, frames of 7 bytes; 12-byte table "
+                                    "entries, descriptor byte (BYTE)(%d << 7) = 0x%02x) but the seekable reader cannot use it: %s"
+                                    % (cf, "ZSTD_seekable_initCStream" if api == "stream" else "ZSTD_seekable_createFrameLog", cf, (cf << 7) & 255, bad), key=self.K_CFLAG)
+                    ctx.count(("r2-cflag", api, cf))
+                except Fail as e:
+                    self.report(replay, "checksumFlag %d: %s" % (cf, e))
+                except (IndexError, KeyError, ValueError) as e:
+                    self.report(replay, "checksumFlag %d: unparsable output (%r)" % (cf, e), no_input=True)
+
+    def phase_r2_beyond_end(self):
+        """ZSTD_seekable_decompress with an offset at / beyond the end of the content: 'the return value is the number of bytes
+        decompressed, or an error code': it must return, and return an error or a count it has actually written (0)"""
+        ctx = self.ctx
+        x = bytes(range(0x30, 0x30 + 20))
+        xp = self.blob(x, "x")
+        reads0 = [(20, 4), (19, 4), (21, 4), (220, 4), (20 + M32, 1), (M64 - 200, 100), (20, 0), (5, 3)]
+        for mode in ("mem", "file", "cb"):
+            for cf in (0, 1):
+                if mode != "mem" and cf != (ctx.seed & 1):
+                    continue
+                # offset + len wrapping around 2^64 (a call that may not return costs the 10 s limit: one probe per run)
+                reads = reads0 + ([(M64 - 1, 2), (6, 2), (M64 - 1, 1), (7, 2)] if (mode == "mem" and cf == (ctx.seed & 1)) else [])
+                text = ["content_file %s" % xp, "cinit 3 %d 7" % cf, "finish 1000 1000", "open %s %s" % (mode, self.path("r2be.f") if mode == "file" else "")]
+                text += ["r %d %d" % r for r in reads] + ["close"]
+                rc, cl, cerr = self.run_c("\n".join(text) + "\n", timeout=10, linebuf=True)
+                replay = dict(kind="r2", scenario="beyond-end", mode=mode, cf=cf, content_hex=x.hex(), commands=text, rc=rc, seed=ctx.seed)
+                rl = [l for l in cl if l.startswith("r ")]
+                try:
+                    for (off, n), ln in zip(reads, rl):
+                        d = kv(ln)[2]
+                        want = x[off:off + n] if off < len(x) else b""
+                        if d["ret"].startswith("E") and off >= len(x):
+                            continue
+                        if not self._read_ok(d, want):
+                            self.report(dict(replay, failing_call=[off, n], observed=ln[:200]),
+                                        "ZSTD_seekable_decompress(dst, %d, offset %d) on a 20-byte content (%s access) returns %s: neither an error code nor a number "
+                                        "of bytes it decompressed (nothing is written; len = eos - offset wraps in U64)" % (n, off, mode, d["ret"]), key=self.K_BEYOND)
+                            break
+                    if len(rl) < len(reads):
+                        off, n = reads[len(rl)]
+                        how = "does not return (10 s)" if rc == 124 else "crashes (rc=%d)" % rc
+                        self.report(dict(replay, failing_call=[off, n]),
+                                    "ZSTD_seekable_decompress(dst, %d, offset %d) on a 20-byte content (%s access) %s: offset + len wraps around 2^64, the length "
+                                    "clamp is skipped and the outer do-while never reaches decompressedOffset == offset + len" % (n, off, mode, how), key=self.K_BEYOND)
+                    elif rc != 0:
+                        raise Fail("crash (rc=%d): %s" % (rc, (cerr or "")[-300:]))
+                    ctx.count(("r2-beyond", mode, cf))
+                except Fail as e:
+                    self.report(replay, "reads beyond the end: " + str(e))
+                except (IndexError, KeyError, ValueError) as e:
+                    self.report(replay, "reads beyond the end: unparsable output (%r)" % (e,), no_input=True)
+
+    def phase_r2_misc(self):
+        """(a) callbacks returning positive values on success (the header: 'a non-negative value in case of success');
+        (b) ZSTD_seekable_initCStream on an object whose previous session was abandoned at an awkward point (frame end pending,
+        table half written, other flag / frame size): the new session's archive must be byte-identical to the one a fresh object
+        writes, and read back."""
+        ctx, rng = self.ctx, self.rng
+        x = bytes(range(0x30, 0x30 + 21))
+        xp = self.blob(x, "x")
+        # (a)
+        for okv in (1, 7, 2147483647):
+            cf = rng.choice([0, 1])
+            rds = [(0, 21), (15, 2), (1, 3), (6, 9), (20, 1), (0, 1)]
+            text = ["content_file %s" % xp, "cinit 3 %d 7" % cf, "finish 1000 1000", "cbret %d" % okv, "open cb"] + ["r %d %d" % r for r in rds] + ["close", "cbret 0"]
+            rc, cl, cerr = self.run_c("\n".join(text) + "\n", timeout=30, linebuf=True)
+            replay = dict(kind="r2", scenario="misc", sub="cbret", value=okv, cf=cf, commands=text, rc=rc, seed=ctx.seed)
+            rl = [l for l in cl if l.startswith("r ")]
+            try:
+                if rc != 0 or len(rl) != len(rds):
+                    raise Fail("crash / refused (rc=%d): %s %s" % (rc, [l for l in cl if l.startswith("open")][:1], (cerr or "")[-200:]))
+                for (off, n), ln in zip(rds, rl):
+                    if not self._read_ok(kv(ln)[2], x[off:off + n]):
+                        raise Fail("decompress(dst, %d, %d) returns %s" % (n, off, kv(ln)[2].get("ret")))
+                ctx.count(("r2-cbret", okv > 1))
+            except Fail as e:
+                self.report(replay, "callback source whose read/seek return %d (a non-negative value) on success: %s" % (okv, e))
+            except (IndexError, KeyError, ValueError) as e:
+                self.report(replay, "callback return values: unparsable output (%r)" % (e,), no_input=True)
+        # (b)
+        sessA = [["cinit 3 1 7", "c 10 64", "e1 1"], ["cinit 3 1 7", "c 21 1000", "s 1000"], ["cinit 3 1 5", "c 21 1000", "s 9", "s 3"],
+                 ["cinit 3 0 0", "c 4 0"], ["cinit 3 1 %d" % ((1 << 30) + 1)], ["cinit 3 1 3", "c 2 64", "cinit 3 0 %d" % ((1 << 30) + 7)]]
+        for k, pre in enumerate(sessA):
+            cfB, mfsB = rng.choice([(1, 7), (0, 7), (1, 4), (1, 0), (0, 21)])
+            sess = ["cinit 3 %d %d" % (cfB, mfsB), "finish %d %d" % (rng.choice([1000, 3]), rng.choice([1000, 2]))]
+            p0, p1 = self.path("r2ci0_%d.zst" % k), self.path("r2ci1_%d.zst" % k)
+            rc0, cl0, _ = self.run_c("\n".join(["content_file %s" % xp] + sess + ["save %s" % p0]) + "\n", timeout=30)
+            text = ["content_file %s" % xp] + pre + ["content_file %s" % xp] + sess + ["save %s" % p1, "frames", "regular", "open mem", "r 0 21", "r 6 9", "close"]
+            rc, cl, cerr = self.run_c("\n".join(text) + "\n", timeout=30, linebuf=True)
+            replay = dict(kind="r2", scenario="misc", sub="cinit-twice", abandoned=pre, session=sess, content_hex=x.hex(), rc=rc, seed=ctx.seed)
+            try:
+                if rc0 != 0 or rc != 0:
+                    raise Fail("crash (rc=%d/%d): %s" % (rc0, rc, (cerr or "")[-300:]))
+                a0, a1 = open(p0, "rb").read(), open(p1, "rb").read()
+                if a0 != a1:
+                    raise Fail("the archive differs from the one a fresh object writes with the same calls (%d vs %d bytes: %s.. / %s..)" % (len(a1), len(a0), a1.hex()[:80], a0.hex()[:80]))
+                rl = [l for l in cl if l.startswith("r ")]
+                if len(rl) != 2 or not self._read_ok(kv(rl[0])[2], x) or not self._read_ok(kv(rl[1])[2], x[6:15]):
+                    raise Fail("the archive does not read back: %s" % [l[:80] for l in rl])
+                ctx.count(("r2-cinit-twice", k))
+            except Fail as e:
+                self.report(replay, "ZSTD_seekable_initCStream on an object whose previous session was abandoned (%s): %s" % (pre, e))
+            except (IndexError, KeyError, ValueError, OSError) as e:
+                self.report(replay, "initCStream twice: unparsable output (%r)" % (e,), no_input=True)
+
+    def phase_r2_raw_frames(self):
+        """Archives assembled with the documented raw API (independently compressed frames + ZSTD_seekable_logFrame +
+        ZSTD_seekable_writeSeekTable), the frames carrying zstd's own content checksum or not.  Intact: every read returns its
+        slice.  One byte of a frame flipped: a read that covers that frame TO ITS END (decompressFrame, or decompress of exactly
+        the frame / past it) is covered by a checksum and must not report success with wrong bytes."""
+        ctx, rng = self.ctx, self.rng
+        cases = [(bytes(range(0x30, 0x30 + 14)), 7, 3)]
+        cases.append((gen_content(rng, 300, "text"), 64, 3))
+        for _ in range(1 if ctx.quick else 12):
+            n = rng.randint(20, 2000)
+            cases.append((gen_content(rng, n, rng.choice(["text", "rand", "count"])), rng.randint(5, max(6, n // 2)), rng.choice([1, 3, 5])))
+        rawspecs = []
+        for ci, (x, fs, level) in enumerate(cases):
+            xp = self.blob(x, "x")
+            for cf, zck in ((1, 1), (1, 0), (0, 1)):
+                head = ["content_file %s" % xp, "rawarch %d %d %d %d" % (cf, zck, level, fs)]
+                rc0, cl0, _ = self.run_c("\n".join(head) + "\n", timeout=30)
+                try:
+                    logl = [l for l in cl0 if l.startswith("rawarch log")][0]
+                    log = [tuple(int(v) for v in e.split(":")) for e in logl.split(" :", 1)[1].split()]
+                except (IndexError, ValueError):
+                    self.report(dict(kind="r2", scenario="raw-frames", rc=rc0), "raw-API archive could not be built", no_input=True)
+                    continue
+                cs_, ds_ = cum(log)
+                nfr = len(log)
+                frames_reads = []
+                for i in range(nfr):
+                    frames_reads += [("rf", i, log[i][1]), ("r", ds_[i], log[i][1])]
+                    if i + 1 < nfr:
+                        frames_reads.append(("r", ds_[i], log[i][1] + 1))
+                    if log[i][1] > 1:
+                        frames_reads.append(("r", ds_[i] + 1, log[i][1] - 1))
+                    if i + 1 < nfr:      # two whole frames: the read leaves frame i behind and stops exactly at the end of frame i+1
+                        frames_reads.append(("r", ds_[i], log[i][1] + log[i + 1][1]))
+                frames_reads = frames_reads[:80]
+                # the intact archive also goes through the read phase of round 1 (model lock-step, all its read generators): frames with a
+                # zstd checksum make the decoder report "frame complete" one call AFTER the last byte - a pacing the own compressor never shows
+                ap = self.path("r2rawok_%d_%d%d.zst" % (ci, cf, zck))
+                rcs, cls_, _ = self.run_c("\n".join(head + ["save %s" % ap]) + "\n", timeout=30)
+                if rcs == 0 and os.path.exists(ap):
+                    rawspecs.append(dict(id="w%d" % len(rawspecs), x=x, kind="raw", mfs=fs, cf=cf, level=level, ops=[head[1]], ccap=0, scap=0, tag="raw-api",
+                                         xpath=xp, apath=ap, log=log, arch=open(ap, "rb").read()))
+                # positions to damage: none (intact archive), then bytes inside frames
+                damages = [None]
+                for _ in range(3 if ctx.quick else 10):
+                    f = rng.randrange(nfr)
+                    if log[f][0] > 0:
+                        damages.append((cs_[f] + rng.randrange(log[f][0]), rng.choice([0x40, 0x01, 0x80, 0x10])))
+                if ci == 0:
+                    damages.insert(1, (10, 0x40))
+                for dmg in damages:
+                    for mode in (("mem", "file", "cb") if (dmg is None or ci == 0) else (rng.choice(["mem", "file", "cb"]),)):
+                        body = ["open %s %s" % (mode, self.path("r2raw.f") if mode == "file" else "")] + ["%s %d %d" % r for r in frames_reads] + ["close"]
+                        rc, cl, cerr = self._run_raw(head, dmg, body)
+                        replay = dict(kind="r2", scenario="raw-frames", content_hex=x.hex() if len(x) <= 4096 else None, content_len=len(x), frame_size=fs, level=level,
+                                      table_checksums=cf, zstd_checksums=zck, damage=list(dmg) if dmg else None, mode=mode, reads=[list(r) for r in frames_reads], rc=rc, seed=ctx.seed)
+                        rl = [l for l in cl if l.split()[:1] and l.split()[0] in ("r", "rf")]
+                        try:
+                            if rc != 0 or len(rl) != len(frames_reads):
+                                raise Fail("crash / hang (rc=%d): %s" % (rc, (cerr or "")[-300:]))
+                            dfr = None
+                            if dmg is not None:
+                                dfr = next((i for i in range(nfr) if cs_[i] <= dmg[0] < cs_[i + 1]), None)
+                            for rd, ln in zip(frames_reads, rl):
+                                d = kv(ln)[2]
+                                off, n = (ds_[rd[1]], rd[2]) if rd[0] == "rf" else (rd[1], rd[2])
+                                want = x[off:off + n]
+                                if dmg is None:
+                                    if not self._read_ok(d, want):
+                                        raise Fail("valid archive: %s %d %d returns %s instead of the content slice" % (rd[0], rd[1], rd[2], d.get("ret")))
+                                    continue
+                                if d["ret"].startswith("E") or self._read_ok(d, want):
+                                    continue
+                                covers_end = dfr is not None and off <= ds_[dfr] + max(log[dfr][1] - 1, 0) and off + n >= ds_[dfr + 1] and off < ds_[dfr + 1]
+                                if covers_end:
+                                    self.report(dict(replay, failing_call=list(rd), observed=ln[:300]),
+                                                "raw-API archive (%d frames of %d bytes compressed with ZSTD_compress2 level %d, zstd content checksum %s, seek-table "
+                                                "checksums %s), archive byte %d xor 0x%02x (inside frame %d): %s(%d, %d) (%s access) reads the damaged frame to its end and "
+                                                "returns %s = success with wrong bytes (%s, content %s): the loop stops at offset+len before the decoder has reached "
+                                                "the end of the frame, so neither checksum is looked at"
+                                                % (nfr, fs, level, "on" if zck else "off", "on" if cf else "off", dmg[0], dmg[1], dfr,
+                                                   "ZSTD_seekable_decompressFrame" if rd[0] == "rf" else "ZSTD_seekable_decompress", rd[1], rd[2], mode, d["ret"],
+                                                   d.get("data", "crc " + d.get("crc", "?"))[:40], want.hex()[:40]), key=self.K_EXACT)
+                                    break
+                            ctx.count(("r2-raw", cf, zck, mode, dmg is not None, min(nfr, 3)))
+                        except Fail as e:
+                            self.report(replay, "raw-API archive: " + str(e))
+                        except (IndexError, KeyError, ValueError) as e:
+                            self.report(replay, "raw-API archive: unparsable output (%r)" % (e,), no_input=True)
+        self._raw_lockstep(rawspecs)
+
+    def _raw_lockstep(self, rawspecs):
+        if rawspecs:
+            self.phase_reads(rawspecs)
+
+    def _run_raw(self, head, dmg, body):
+        text = list(head)
+        if dmg is not None:
+            # xor through setbytes needs the current byte: build first, read it back through 'save'
+            ap = self.path("r2raw_%d.zst" % self.nfile)
+            rc0, cl0, _ = self.run_c("\n".join(head + ["save %s" % ap]) + "\n", timeout=30)
+            arch = open(ap, "rb").read()
+            text.append("setbytes %d %02x" % (dmg[0], arch[dmg[0]] ^ dmg[1]))
+        return self.run_c("\n".join(text + body) + "\n", exe=self.asan(), timeout=60, linebuf=True)
+
     def phase_maxframes(self):
         """ZSTD_seekable_logFrame refuses the (MAXFRAMES+1)-th frame (hypothesis 'lenN log <= MAXFRAMES' of the table theorems is
         enforced by the code): direct oracle on the real code, 2^27 log entries (1.6 GB, ~1 s); the model's log_frame has the
@@ -1342,6 +1700,18 @@ def replay(ctx):
         rc, cl, cerr = t.run_c("\n".join(ctext) + "\n")
         ml = t.run_m("\n".join(mtext) + "\n")
         t.compare_rawtable(c, t.sections(cl).get("w0", []), t.sections(ml).get("w0", []))
+    elif kind == "reads" and rp.get("content_hex") is not None and rp.get("ops") and str(rp["ops"][0]).startswith("rawarch"):
+        # an archive assembled with the raw seek-table API (round 2): rebuild it, then the recorded read history in lock-step
+        x = bytes.fromhex(rp["content_hex"])
+        xp, ap = t.blob(x, "x"), t.path("replay_raw.zst")
+        rc, cl, cerr = t.run_c("\n".join(["content_file %s" % xp, rp["ops"][0], "save %s" % ap]) + "\n", timeout=60)
+        logl = [l for l in cl if l.startswith("rawarch log")][0]
+        log = [tuple(int(v) for v in e.split(":")) for e in logl.split(" :", 1)[1].split()]
+        s = dict(id="w0", x=x, kind="raw", mfs=rp["mfs"], cf=rp["cf"], level=rp["level"], ops=rp["ops"], ccap=0, scap=0, tag="replay",
+                 xpath=xp, apath=ap, log=log, arch=open(ap, "rb").read())
+        hist = [tuple(r) for r in rp.get("history", [])]
+        t.gen_reads = lambda s_: hist
+        t.phase_reads([s])
     elif kind in ("compress", "reads") and rp.get("content_hex") is not None:
         s = dict(id="a0", x=bytes.fromhex(rp["content_hex"]), kind=rp.get("content_kind", "?"), mfs=rp["mfs"], cf=rp["cf"], level=rp["level"],
                  ops=rp["ops"], ccap=rp["ccap"], scap=rp["scap"], tag="replay")
@@ -1358,6 +1728,9 @@ def replay(ctx):
         t.phase_io_fault()
     elif kind == "reinit":
         t.phase_reinit()
+    elif kind == "r2":
+        {"reinit-modes": t.phase_r2_reinit_modes, "checksum-flag": t.phase_r2_checksum_flag, "beyond-end": t.phase_r2_beyond_end,
+         "raw-frames": t.phase_r2_raw_frames, "misc": t.phase_r2_misc}.get(rp.get("scenario"), t.phase_r2_endframe_pending)()
     elif kind == "corrupt" and rp.get("archive_hex") is not None:
         v = dict(s=None, arch=bytes.fromhex(rp["archive_hex"]), cls="J", note=rp.get("note", ""), log=[], cf=0, id="k0", mode=rp.get("mode") or "mem",
                  reads=[tuple(r) for r in rp.get("reads", [])])
@@ -1389,7 +1762,7 @@ def run(ctx):
     r = ctx.prove()
     t = Tie(ctx, rng)
     import time as _time
-    for ph in (t.phase_rawtable, t.phase_overlong_frame, t.phase_short_frame, t.phase_io_fault, t.phase_reinit, t.phase_archives, t.phase_corrupt, t.phase_maxframes):
+    for ph in (t.phase_rawtable, t.phase_overlong_frame, t.phase_short_frame, t.phase_io_fault, t.phase_reinit, t.phase_r2_endframe_pending, t.phase_r2_reinit_modes, t.phase_r2_checksum_flag, t.phase_r2_beyond_end, t.phase_r2_misc, t.phase_r2_raw_frames, t.phase_archives, t.phase_corrupt, t.phase_maxframes):
         t0 = _time.time()
         ph()
         core.log("C20 %s: %.1fs (evaluations so far %d)" % (ph.__name__, _time.time() - t0, ctx.cov["evaluations"]))
